@@ -38,6 +38,11 @@ NEEDS = {
  "C33-preprocess-early-return-no-provenance": "preprocess_ts(split_disjoint=False) with provenance recording on",
  "C34-cli-zero-treated-as-unset": "an explicit 0 for --rescaling-intervals or --max-iterations with variational_gamma",
  "C35-tips-per-tree-off-by-one": "a discrete method on a >=2-tree input whose FIRST tree has a sample count occurring in no later tree (missing data in the first tree only)",
+ "C21b-rescale-factors-rebinds-scale": "the underflow guard inside propagate_likelihood firing mid-sweep (node scale < TINY: large inputs / many iterations / extreme rates); iterations may then abort by exception",
+ "C33b-provenance-template-shared-parameters": "two recording tsdate calls with different parameter sets in the SAME process (e.g. preprocess_ts then date)",
+ "C36-rename-before-flush": "a crash (or concurrent reader) between the rename and the close of the cache file; uninterrupted runs end bit-identical",
+ "C37-stale-node-edge-in-count-mutations": "a mutation above a node that is a root/isolated at the mutation's position but was a child in a tree further left",
+ "C38-skip-highest-numbered-root": "the node holding the last id is not the root of any single-root tree (e.g. it is a non-root internal node after renumbering)",
 }
 for d in sorted(glob.glob(os.path.join(ROOT, "seeded", "*"))):
     name = os.path.basename(d)
